@@ -144,7 +144,7 @@ fn run<T: Sc>(case: &TrajCase) -> Check {
     let nonunit = matches!(case.base.weight_class(), "w:positive" | "w:zeros" | "w:negative");
     out.nontrivial = (nonunit || case.base.s() > 1) && nonzero_seen && n_states >= 3;
     out.class(case.base.weight_class());
-    out.class(format!("S={}", case.base.s()));
+    out.class(crate::gen::s_label(case.base.s()));
     out.class(case.base.flavour());
     for r in case.base.regime() {
         out.class(r);
